@@ -22,6 +22,19 @@
 // rack       : the DISTINCT canonical results of 8 (-rackruns) runs joined by "/" (members with
 // nothing assigned dropped); a run that panicked contributes PANIC.
 //
+// lrange / lrr / lrack : the group LEADER path.  The real ConsumerGroup.assignTopicPartitions
+// (kafka.VerifAssignTopicPartitions: findGroupBalancer, metadata encode+decode, extractTopics,
+// readPartitions, AssignGroups) runs against a fake broker holding <partitions> as the CLUSTER:
+// the broker records the topics it is asked for and answers with the cluster's partitions of
+// exactly those topics, in cluster order.  Result:
+//
+//	"<canonical> req=<requested topics, hex joined by ',', or '-'>"   (lrack: distinct canonical
+//	results of the runs joined by "/" before " req=")
+//
+// followed by " calls=N" when the broker was asked N != 1 times; <canonical> is ERR:<msg> when
+// assignTopicPartitions returned an error and PANIC when it panicked.  With -unknown the
+// broker answers (nil, UnknownTopicOrPartition) when a requested topic is not in the cluster.
+//
 // The OCaml driver evaluates the extracted Coq model on "<id> <op> <members> <partitions>".
 package main
 
@@ -215,7 +228,94 @@ func runOnce(op string, g group) (res string) {
 var rackRuns = 8 // -rackruns
 const permRuns = 2
 
+var brokerUnknown = false // -unknown
+
+func isLeader(op string) bool { return op == "lrange" || op == "lrr" || op == "lrack" }
+
+// baseOp: the balancer a leader op ends up in
+func baseOp(op string) string {
+	if isLeader(op) {
+		return op[1:]
+	}
+	return op
+}
+
+var leaderBalancers = []kafka.GroupBalancer{kafka.RangeGroupBalancer{}, kafka.RoundRobinGroupBalancer{}, kafka.RackAffinityGroupBalancer{}}
+
+// runLeader: one run of the real leader path against the fake broker.
+func runLeader(op string, g group) (res string, req string) {
+	calls := 0
+	requested := "-"
+	defer func() {
+		if e := recover(); e != nil {
+			res = "PANIC"
+		}
+		req = requested
+		if calls != 1 {
+			req += fmt.Sprintf(" calls=%d", calls)
+		}
+	}()
+	read := func(topics ...string) ([]kafka.Partition, error) {
+		calls++
+		want := map[string]bool{}
+		l := make([]string, len(topics))
+		for i, t := range topics {
+			want[t] = true
+			l[i] = encStr(t)
+		}
+		requested = "-"
+		if len(l) > 0 {
+			requested = strings.Join(l, ",")
+		}
+		have := map[string]bool{}
+		var ps []kafka.Partition
+		for _, p := range g.ps {
+			if want[p.Topic] {
+				have[p.Topic] = true
+				ps = append(ps, p)
+			}
+		}
+		if brokerUnknown {
+			for _, t := range topics {
+				if !have[t] {
+					return nil, kafka.UnknownTopicOrPartition
+				}
+			}
+		}
+		return ps, nil
+	}
+	proto := map[string]string{"lrange": "range", "lrr": "roundrobin", "lrack": "rack-affinity"}[op]
+	a, err := kafka.VerifAssignTopicPartitions(leaderBalancers, proto, cloneMembers(g.ms), read)
+	if err != nil {
+		return "ERR:" + strings.Join(strings.Fields(err.Error()), "_"), ""
+	}
+	return canon(a, op != "lrack"), ""
+}
+
 func result(op string, g group, r *rand.Rand) string {
+	if isLeader(op) {
+		runs := 1
+		if op == "lrack" {
+			runs = rackRuns
+		}
+		seen, reqs := map[string]bool{}, map[string]bool{}
+		for i := 0; i < runs; i++ {
+			c, q := runLeader(op, g)
+			seen[c] = true
+			reqs[q] = true
+		}
+		l := make([]string, 0, len(seen))
+		for s := range seen {
+			l = append(l, s)
+		}
+		sort.Strings(l)
+		q := make([]string, 0, len(reqs))
+		for s := range reqs {
+			q = append(q, s)
+		}
+		sort.Strings(q)
+		return strings.Join(l, "/") + " req=" + strings.Join(q, "/")
+	}
 	if op == "rack" {
 		seen := map[string]bool{}
 		for i := 0; i < rackRuns; i++ {
@@ -249,10 +349,51 @@ func result(op string, g group, r *rand.Rand) string {
 
 // ---------------------------------------------------------------- features
 
-func features(op string, g group) string {
+func features(fullOp string, g group) string {
+	op := baseOp(fullOp)
 	f := map[string]bool{}
 	nontrivial := false
 	tag := func(s string) { f[s] = true; nontrivial = true }
+	if isLeader(fullOp) {
+		f["leader"] = true
+		seenT := map[string]bool{}
+		for _, m := range g.ms {
+			sawSeen := false
+			for _, t := range m.Topics {
+				if seenT[t] {
+					sawSeen = true
+				} else {
+					if sawSeen {
+						tag("new-after-seen")
+					}
+					seenT[t] = true
+				}
+			}
+		}
+		set := func(m kafka.GroupMember) string {
+			l := append([]string(nil), m.Topics...)
+			sort.Strings(l)
+			return strings.Join(l, "\x00|")
+		}
+		for _, m := range g.ms {
+			if set(m) != set(g.ms[0]) {
+				tag("hetero")
+				break
+			}
+		}
+		inCluster := map[string]bool{}
+		for _, p := range g.ps {
+			inCluster[p.Topic] = true
+			if !seenT[p.Topic] {
+				tag("cluster-extra-topic")
+			}
+		}
+		for t := range seenT {
+			if !inCluster[t] {
+				tag("topic-missing-in-cluster")
+			}
+		}
+	}
 	nm := len(g.ms)
 	switch {
 	case nm == 0:
@@ -507,6 +648,10 @@ func genGroup(r *rand.Rand, op string) group {
 	case x >= 5:
 		nt = 2
 	}
+	leader := isLeader(op)
+	if leader && r.Intn(2) == 0 && nt < 4 { // the leader path is about the union of subscriptions: more topics
+		nt++
+	}
 	topics := append([]string(nil), pool[:nt]...)
 	if r.Intn(30) == 0 {
 		topics[r.Intn(nt)] = ""
@@ -547,6 +692,9 @@ func genGroup(r *rand.Rand, op string) group {
 	// subscriptions
 	ms := make([]kafka.GroupMember, nm)
 	mode := r.Intn(10)
+	if leader && mode < 4 && r.Intn(3) > 0 { // mostly heterogeneous, overlapping subscriptions
+		mode = 4 + r.Intn(6)
+	}
 	for i := range ms {
 		var ts []string
 		if mode < 4 {
@@ -561,11 +709,11 @@ func genGroup(r *rand.Rand, op string) group {
 		if mode == 9 && r.Intn(2) == 0 {
 			ts = append(ts, "ghost")
 		}
-		if r.Intn(3) == 0 {
+		if r.Intn(3) == 0 || (leader && r.Intn(2) == 0) {
 			r.Shuffle(len(ts), func(a, b int) { ts[a], ts[b] = ts[b], ts[a] })
 		}
 		ud := []byte(memberRacks[r.Intn(len(memberRacks))])
-		if op != "rack" && r.Intn(3) == 0 {
+		if baseOp(op) != "rack" && r.Intn(3) == 0 {
 			ud = make([]byte, r.Intn(6))
 			r.Read(ud)
 		}
@@ -574,8 +722,12 @@ func genGroup(r *rand.Rand, op string) group {
 
 	// partitions
 	ptopics := append([]string(nil), topics...)
-	if r.Intn(10) == 0 {
+	if r.Intn(10) == 0 || (leader && r.Intn(4) == 0) {
 		ptopics = append(ptopics, "orphan")
+	}
+	if leader && len(ptopics) > 1 && r.Intn(5) == 0 { // a subscribed topic the cluster does not have
+		k := r.Intn(len(ptopics))
+		ptopics = append(ptopics[:k:k], ptopics[k+1:]...)
 	}
 	var per [][]kafka.Partition
 	for _, t := range ptopics {
@@ -789,6 +941,73 @@ func exhaustive(scope int, r *rand.Rand) {
 		rack1(3, 4, 3)
 		rack2(2, 2, 2)
 	}
+	// Leader path: <=3 members (a fixed unsorted listing of ids; extractTopics does not look at
+	// ids and the balancers' dependence on id order is enumerated above), every member's topic
+	// list any duplicate-free ORDERED list over three topics (16 lists, the empty one included),
+	// so every order of first mention of the topics occurs; a few small clusters.
+	lists := orderedLists(exLeaderTopics)
+	clusters := []leaderClusterSpec{{[3]int{2, 2, 2}, true}, {[3]int{1, 0, 2}, false}}
+	if scope >= 2 {
+		clusters = append(clusters, leaderClusterSpec{[3]int{2, 1, 0}, true}, leaderClusterSpec{[3]int{0, 2, 1}, false},
+			leaderClusterSpec{[3]int{0, 0, 0}, true}, leaderClusterSpec{[3]int{1, 1, 1}, false}, leaderClusterSpec{[3]int{2, 0, 0}, false},
+			leaderClusterSpec{[3]int{0, 1, 2}, true}, leaderClusterSpec{[3]int{1, 2, 1}, false})
+	}
+	for M := 1; M <= 3; M++ {
+		for sub := 0; sub < pow(len(lists), M); sub++ {
+			sd := digits(sub, len(lists), M)
+			for _, cl := range clusters {
+				ms := make([]kafka.GroupMember, M)
+				for i := range ms {
+					ms[i] = kafka.GroupMember{ID: exRackIDs[i], Topics: lists[sd[i]], UserData: []byte(exRacks[(i+1)%2])}
+				}
+				g := group{ms, leaderCluster(cl)}
+				emitCase("lrange", g, r, "exh")
+				emitCase("lrr", g, r, "exh")
+				emitCase("lrack", g, r, "exh")
+			}
+		}
+	}
+}
+
+var exLeaderTopics = []string{"t", "u", "v"}
+var exLeaderPart = [][]int{{5, 0}, {1, 3}, {2, 7}}
+
+type leaderClusterSpec struct {
+	P     [3]int // partitions of t, u, v
+	extra bool   // plus a topic nobody subscribes to
+}
+
+// the cluster's partition list: topics interleaved, racks alternating between "a" and ""
+func leaderCluster(c leaderClusterSpec) []kafka.Partition {
+	var ps []kafka.Partition
+	for i := 0; i < 2; i++ {
+		for k := 0; k < 3; k++ {
+			if i < c.P[k] {
+				ps = append(ps, kafka.Partition{Topic: exLeaderTopics[k], ID: exLeaderPart[k][i], Leader: kafka.Broker{Rack: exRacks[(i+k+1)%2]}})
+			}
+		}
+		if i == 0 && c.extra {
+			ps = append(ps, kafka.Partition{Topic: "x", ID: 0, Leader: kafka.Broker{Rack: "a"}})
+		}
+	}
+	return ps
+}
+
+// every duplicate-free ordered list over the given topics (permutations of subsets)
+func orderedLists(topics []string) [][]string {
+	res := [][]string{nil}
+	var rec func(cur []string, used int)
+	rec = func(cur []string, used int) {
+		for k, t := range topics {
+			if used&(1<<uint(k)) == 0 {
+				next := append(append([]string(nil), cur...), t)
+				res = append(res, next)
+				rec(next, used|1<<uint(k))
+			}
+		}
+	}
+	rec(nil, 0)
+	return res
 }
 
 // ---------------------------------------------------------------- main
@@ -798,6 +1017,7 @@ func main() {
 	count := flag.Int("n", 500, "number of random groups per balancer")
 	exh := flag.Int("exhaustive", 0, "small-scope enumeration: 0 none, 1 quick scope, 2 thorough scope")
 	flag.IntVar(&rackRuns, "rackruns", 8, "how often the rack balancer is run on each case (its result depends on map iteration order)")
+	flag.BoolVar(&brokerUnknown, "unknown", false, "leader ops: the fake broker answers UnknownTopicOrPartition (and no partitions) when a requested topic is not in the cluster")
 	one := flag.String("case", "", "run the single case '<op> <members> <partitions>' and print its line")
 	flag.Parse()
 	r := rand.New(rand.NewSource(*seed))
@@ -815,7 +1035,7 @@ func main() {
 			os.Exit(2)
 		}
 		g, err := decGroup(f[1], f[2])
-		if err != nil || (f[0] != "range" && f[0] != "rr" && f[0] != "rack") {
+		if err != nil || (baseOp(f[0]) != "range" && baseOp(f[0]) != "rr" && baseOp(f[0]) != "rack") {
 			fmt.Fprintln(os.Stderr, "c14: bad case:", err)
 			out.Flush()
 			os.Exit(2)
@@ -824,7 +1044,7 @@ func main() {
 		return
 	}
 
-	ops := []string{"range", "rr", "rack"}
+	ops := []string{"range", "rr", "rack", "lrange", "lrr", "lrack"}
 	for i := 0; i < *count; i++ {
 		for _, op := range ops {
 			emitCase(op, genGroup(r, op), r, "")
